@@ -96,6 +96,10 @@ type vStoreCfg struct {
 	fkToDept bool
 	// fkKeyed: the fk symbol's name ("bossref") differs from the key it is stored under ("boss")
 	fkKeyed bool
+	// symKeyed: the symbols of the unique indexes are named unlike the fields
+	// they are stored under ("displayName" -> name, "alias" -> nick); field
+	// checkers keep naming the stored fields
+	symKeyed bool
 	// links: emp.depts <-> dept.members (link collection) and
 	// emp.rcdepts <-> dept.rcmembers (ref-counted link collection)
 	links bool
@@ -167,9 +171,14 @@ func verifNewEmpStore(cfg vStoreCfg, dept *vDeptStore) *vEmpStore {
 	s := &vEmpStore{BaseStore: NewBaseStore(def)}
 	s.InitImpl(s)
 	s.AddIdSymbol("id", ast.NodeTypeString)
-	s.symName = s.AddSymbol(vFName, ast.NodeTypeString)
+	if cfg.symKeyed {
+		s.symName = s.AddSymbolWithKey("displayName", ast.NodeTypeString, vFName)
+		s.symNick = s.AddSymbolWithKey("alias", ast.NodeTypeString, vFNick)
+	} else {
+		s.symName = s.AddSymbol(vFName, ast.NodeTypeString)
+		s.symNick = s.AddSymbol(vFNick, ast.NodeTypeString)
+	}
 	s.idxName = s.AddUniqueIndex(s.symName)
-	s.symNick = s.AddSymbol(vFNick, ast.NodeTypeString)
 	if cfg.nickNullable {
 		s.idxNick = s.AddNullableUniqueIndex(s.symNick)
 	} else {
